@@ -210,7 +210,9 @@ class AsyncPettingZooVecEnv(PettingZooVecEnv):
                 f"The call to `reset_wait` has timed out after {timeout} second(s)."
             )
 
-        info_data, successes = zip(*[pipe.recv() for pipe in self.parent_pipes])
+        info_data, successes = zip(
+            *[self._recv_from(idx) for idx in range(len(self.parent_pipes))]
+        )
         self._raise_if_errors(successes)
 
         infos = {}
@@ -281,7 +283,7 @@ class AsyncPettingZooVecEnv(PettingZooVecEnv):
         successes = []
         infos = {}
         for env_idx, pipe in enumerate(self.parent_pipes):
-            env_step_return, success = pipe.recv()
+            env_step_return, success = self._recv_from(env_idx)
             successes.append(success)
             if success:
                 for agent in self.agents:
@@ -371,7 +373,9 @@ class AsyncPettingZooVecEnv(PettingZooVecEnv):
                 f"The call to `call_wait` has timed out after {timeout} second(s)."
             )
 
-        results, successes = zip(*[pipe.recv() for pipe in self.parent_pipes])
+        results, successes = zip(
+            *[self._recv_from(idx) for idx in range(len(self.parent_pipes))]
+        )
         self._raise_if_errors(successes)
         self._state = AsyncState.DEFAULT
         return results
@@ -412,7 +416,9 @@ class AsyncPettingZooVecEnv(PettingZooVecEnv):
 
         for pipe, value in zip(self.parent_pipes, values):
             pipe.send(("_setattr", (name, value)))
-        _, successes = zip(*[pipe.recv() for pipe in self.parent_pipes])
+        _, successes = zip(
+            *[self._recv_from(idx) for idx in range(len(self.parent_pipes))]
+        )
         self._raise_if_errors(successes)
 
     def close_extras(
@@ -428,6 +434,10 @@ class AsyncPettingZooVecEnv(PettingZooVecEnv):
         :param terminate: If ``True``, then the :meth:`close` operation is forced and all processes are terminated, defaults to False
         :type terminate: bool, optional
         """
+        if any(not process.is_alive() for process in self.processes):
+            # A worker already died (it raised or was killed), nothing can be
+            # negotiated with it any more: shut the remaining workers down
+            terminate = True
         timeout = 0 if terminate else timeout
 
         try:
@@ -439,19 +449,33 @@ class AsyncPettingZooVecEnv(PettingZooVecEnv):
                 function(timeout)
         except mp.TimeoutError:
             terminate = True
+        except Exception as e:
+            # The pending call failed (a worker raised or died), still release everything
+            logger.error(
+                f"Pending call failed while closing: {type(e).__name__}: {e}"
+            )
+            terminate = True
+        self._state = AsyncState.DEFAULT
+
+        if not terminate:
+            for pipe in self.parent_pipes:
+                if (pipe is not None) and (not pipe.closed):
+                    try:
+                        pipe.send(("close", None))
+                    except OSError:
+                        terminate = True
+
+            for pipe in self.parent_pipes:
+                if (pipe is not None) and (not pipe.closed):
+                    try:
+                        pipe.recv()
+                    except (EOFError, OSError):
+                        terminate = True
 
         if terminate:
             for process in self.processes:
                 if process.is_alive():
                     process.terminate()
-        else:
-            for pipe in self.parent_pipes:
-                if (pipe is not None) and (not pipe.closed):
-                    pipe.send(("close", None))
-
-            for pipe in self.parent_pipes:
-                if (pipe is not None) and (not pipe.closed):
-                    pipe.recv()
 
         for pipe in self.parent_pipes:
             if pipe is not None:
@@ -474,6 +498,17 @@ class AsyncPettingZooVecEnv(PettingZooVecEnv):
             if pipe.closed or (not pipe.poll(delta)):
                 return False
         return True
+
+    def _recv_from(self, index: int) -> Any:
+        """Receive from a worker pipe, noticing a worker that died without reporting an error."""
+        try:
+            return self.parent_pipes[index].recv()
+        except (EOFError, OSError):
+            logger.error(f"Worker-{index} died unexpectedly - Shutting it down")
+            self.parent_pipes[index].close()
+            self.parent_pipes[index] = None
+            self._state = AsyncState.DEFAULT
+            raise
 
     def _raise_if_errors(self, successes: List[bool]) -> None:
         if all(successes):
